@@ -71,6 +71,10 @@ func instancesFor(prop, tier string) []*Instance {
 		c06Instances(add, thorough)
 	case "C10":
 		c10Instances(add, thorough)
+	case "C13":
+		c13Instances(add, thorough)
+	case "C08":
+		c08Instances(add, thorough)
 	case "C03":
 		c03Instances(add, thorough)
 	case "C15":
@@ -641,5 +645,79 @@ func c10Instances(add func(*Instance), thorough bool) {
 	// 4. MustReadFrom
 	for _, L := range []int{0, 4, 8, 12, 16, 20} {
 		add(&Instance{Func: "VerifC10Must", Params: P("L", L)})
+	}
+}
+
+func c13Instances(add func(*Instance), thorough bool) {
+	shapes := serialShapes(thorough)
+	shapes = append(shapes,
+		bmShape{"B(hi) possibly full,A1", P("ak", 2, "akeys", 4, "ac0", 103, "ac1", 1), 0, 0, 0},
+		bmShape{"R1,B(lo),A1 (bitmap-run-array order)", P("ak", 3, "akeys", 4, "ac0", 201, "ac1", 100, "ac2", 1), 0, 0, 0},
+		bmShape{"A1,R1,B(lo)", P("ak", 3, "akeys", 4, "ac0", 1, "ac1", 201, "ac2", 100), 0, 0, 1},
+	)
+	for _, b := range shapes {
+		base := with(b.p, "L", 7, "eff", 1, "acow", 0, "xb", 0, "xm", 262143)
+		for _, k := range []string{"ac0", "ac1", "ac2"} {
+			if v := b.p[k]; v == 100 {
+				base = with(base, "xb", (map[string]int{"ac0": 0, "ac1": 1, "ac2": 2}[k])*65536+4150, "xm", 15)
+			} else if v == 103 {
+				base = with(base, "xb", 56, "xm", 15)
+			}
+		}
+		for _, slack := range []int{-1, 0, 3} {
+			add(&Instance{Func: "VerifC13Frozen", Tier: b.tier, Note: b.name, Params: with(base, "slack", slack, "view", 0)})
+		}
+		add(&Instance{Func: "VerifC13Frozen", Tier: b.tier, Params: with(base, "slack", 0, "view", 1)})
+	}
+}
+
+func c08Instances(add func(*Instance), thorough bool) {
+	shapes := []map[string]int{
+		P("ak", 2, "akeys", 4, "ac0", 2, "ac1", 201),
+		P("ak", 2, "akeys", 4, "ac0", 1, "ac1", 1),
+		P("ak", 3, "akeys", 4, "ac0", 1, "ac1", 220, "ac2", 1),
+	}
+	// call strings: c0[,c1] : 0 Add 1 Remove 2 AddRange 3 RemoveRange 4 Flip 5 in-place binop (bop) 8 Clone+mutate the clone
+	strings := [][]int{{0}, {1}, {2}, {3}, {4}, {8}, {1, 0}, {3, 0}, {1, 1}, {8, 1}}
+	if thorough {
+		strings = append(strings, []int{0, 3}, []int{1, 1, 0}, []int{3, 2, 1}, []int{4, 1, 0}, []int{0, 4}, []int{2, 3})
+	}
+	for si, sh := range shapes {
+		for ld := 0; ld <= 2; ld++ {
+			for detach := 0; detach <= 1; detach++ {
+				base := with(sh, "L", 7, "eff", 1, "acow", 0, "ld", ld, "detach", detach,
+					"xb", 0, "xm", 262143, "sb", 0, "sm", 262143, "len", 3,
+					"bk", 2, "bkeys", 4, "bcow", 0, "bc0", 2, "bc1", 1)
+				for _, cs := range strings {
+					if detach == 1 && (len(cs) > 1 || si > 0) {
+						continue
+					}
+					if len(cs) > 1 && si != 1 && !thorough {
+						continue // multi-step strings on the single-value-chunk shape only (quick)
+					}
+					pp := with(base, "steps", len(cs))
+					for i, c := range cs {
+						pp["c"+string(rune('0'+i))] = c
+					}
+					add(&Instance{Func: "VerifC08Buffer", Params: pp})
+				}
+				if detach == 0 {
+					for bop := 0; bop <= 3; bop++ {
+						if bop >= 2 && si != 1 {
+							continue // xor/andNot build bitmaps from run chunks: only on array chunks here (C01 covers the kernels)
+						}
+						add(&Instance{Func: "VerifC08Buffer", Params: with(base, "steps", 1, "c0", 5, "bop", bop)})
+						add(&Instance{Func: "VerifC08Buffer", Params: with(base, "steps", 2, "c0", 1, "c1", 5, "bop", bop), Tier: 1})
+					}
+				}
+			}
+		}
+	}
+	// bitmap chunk (8 KiB payload), windowed arguments
+	for ld := 0; ld <= 2; ld++ {
+		for _, c0 := range []int{0, 1, 3, 5} {
+			add(&Instance{Func: "VerifC08Buffer", Params: P("ak", 2, "akeys", 4, "ac0", 100, "ac1", 1, "L", 7, "eff", 1, "ld", ld, "detach", 0, "steps", 1, "c0", c0,
+				"xb", 4150, "xm", 15, "sb", 4150, "sm", 15, "len", 3, "bk", 1, "bkeys", 4, "bc0", 21, "bop", 1)})
+		}
 	}
 }
